@@ -17,3 +17,4 @@ print('stable_pass:',len(base['stable_pass']),'passing now:',len(base['stable_pa
 for t in missing: print('NOT PASSING:',t,res.get(t))
 PY
 rm -f /tmp/verif_baseline.json
+git -C /repo clean -fdq   # artefacts the tests write into the tree
